@@ -243,16 +243,15 @@ Definition step_gen (pinned : bool) (s : state) (e : event) : option state :=
   | KProbeApply t ok prev new =>
     match nget (tgts s) t with
     | Some x =>
-      (* a goroutine that saw a state change rebuilds the rotation before its next probe result *)
-      if tstate_eqb new (probe_next (t_st x) ok) && negb (owes (owe s) a) then
+      (* [previousState = t.state] is read inside the lock region that writes the new state
+         (HealthCheckCompleted): the reported previous state is the state the target holds.
+         A goroutine that saw a state change rebuilds the rotation before its next probe result *)
+      if tstate_eqb prev (t_st x) && tstate_eqb new (probe_next (t_st x) ok) && negb (owes (owe s) a) then
         let s := if tstate_eqb prev new then s else set_owe s (a :: owe s) in
         let x1 := tg_st (if ok then tg_pok x true else x) new in
         if ok && tstate_eqb (t_st x) TAdding then
-          (* becameHealthy: the unsynchronised read of the previous state must have seen "adding",
-             so that the rotation rebuild follows *)
-          if tstate_eqb prev TAdding then
-            Some (put_t s t (if pinned then tg_sig x1 true else tg_by x1 (Some a)))
-          else None
+          (* becameHealthy (the previous state is "adding", so the rotation rebuild follows) *)
+          Some (put_t s t (if pinned then tg_sig x1 true else tg_by x1 (Some a)))
         else Some (put_t s t x1)
       else None
     | None => None
